@@ -59,7 +59,7 @@ def main(argv=None):
         R, E = run(pid, a.repo, tier, seed, a.evidence_dir, only)
         if tier == 'thorough':
             from fbsa import selftest
-            selftest.run_for_property(pid, R, jobs=a.jobs, seed=seed)
+            selftest.run_for_property(pid, R, jobs=a.jobs, seed=seed, repo=a.repo)
         code = rep.finish(R, E, a.evidence_dir)
     except AnalysisError as e:
         print('ANALYSIS-ERROR property=%s %s' % (pid, e))
